@@ -2077,16 +2077,20 @@ class DiskObjectStore(PackBasedObjectStore):
           sha: SHA1 of the object
 
         Returns:
-          Modification time as seconds since epoch
+          Modification time as seconds since epoch. An object that is
+          stored more than once (loose and packed, or in several packs) is
+          as recent as its most recent copy.
 
         Raises:
           KeyError: if the object is not found
         """
+        mtimes = []
+
         # First check if it's a loose object
         if self.contains_loose(sha):
             path = self._get_shafile_path(sha)
             try:
-                return os.path.getmtime(path)
+                mtimes.append(os.path.getmtime(path))
             except FileNotFoundError:
                 pass
 
@@ -2097,13 +2101,15 @@ class DiskObjectStore(PackBasedObjectStore):
                     # Use the pack file's mtime for packed objects
                     pack_path = pack._data_path
                     try:
-                        return os.path.getmtime(pack_path)
+                        mtimes.append(os.path.getmtime(pack_path))
                     except (FileNotFoundError, AttributeError):
                         pass
             except PackFileDisappeared:
                 pass
 
-        raise KeyError(sha)
+        if not mtimes:
+            raise KeyError(sha)
+        return max(mtimes)
 
     def _remove_pack(self, pack: Pack) -> None:
         # _pack_cache is keyed by the full pack basename (e.g. "pack-<hash>"
